@@ -60,7 +60,7 @@ ChoiceValid(a, ch) ==
     [] ch \in {"unsub", "rmclient"} -> o.nterm < MaxTerm /\ ~o.final
     [] ch \in {"complete", "error"} -> o.nsterm < MaxSrcTerm /\ SrcReady(a)
     [] ch \in {"cs1", "cs2", "cs3"} -> ~Sync(CsSub(ch)) /\ AllowCloseSub /\ o.nterm < MaxTerm /\ SrcReady(a) /\ CsSub(ch) \in g.isubs[Inst0(a)]
-    [] ch = "cancel" -> o.nterm < MaxTerm /\ ~o.final /\ ac[C(a[2])].pc = "c.wait" /\ \A e \in Events : ac[U(a[2], e)].pc \in {"none", "u.end"}
+    [] ch = "cancel" -> o.nterm < MaxTerm /\ ~o.final /\ ac[C(a[2])].pc \in {"c.idle0", "c.wait"} /\ \A e \in Events : ac[U(a[2], e)].pc \in {"none", "u.end"}
     [] ch \in {"us1", "us2", "us3"} -> AllowCloseSub /\ SrcReady(a) /\ o.nev < MaxEvents /\ ~Sync(CsSub(ch))
     [] ch = "update" -> SrcReady(a) /\ o.nev < MaxEvents
     [] ch = "hb" -> SrcReady(a) /\ o.nhb < MaxHB
